@@ -474,10 +474,6 @@ for L in (0, 2):
     for w in range(6):
         UC("c17-constructor-ascii-%d-w%d" % (L, w), "utf32", "k17_constructor_ascii::<%d,%d>()" % (L, w), {"C17": "quick"}, "bounded", U32_FNS,
            "ASCII text without CR LF: %s gives the ASCII form holding the original bytes" % WHICHNAME[w], unwind=L + 5, bound="all ASCII strings of %d bytes; unicode-segmentation feature OFF" % L, cost=5, features=NOSEG, timeout=1500)
-for L in (2, 3):
-    for w in (1, 2, 4):
-        UC("c17-constructor-unicode-%d-w%d" % (L, w), "utf32", "k17_constructor_unicode::<%d,%d>()" % (L, w), {"C17": "quick" if L == 2 else "thorough"}, "bounded", U32_FNS,
-           "non-ASCII or CR LF text: %s gives the code-point form, equal to what Utf32Str::new produces" % WHICHNAME[w], unwind=4 * L + 6, bound="all valid UTF-8 strings of %d bytes that are not plain ASCII; unicode-segmentation feature OFF (graphemes() == chars())" % L, cost=7, features=NOSEG, timeout=1500)
 ACC_FNS = ["Utf32Str::len", "Utf32Str::is_empty", "Utf32Str::get", "Utf32Str::first", "Utf32Str::last", "Utf32Str::chars", "Chars::next", "Chars::next_back", "Utf32Str::slice", "Utf32Str::slice_u32"]
 for L in (0, 3, 4):
     UC("c17-accessors-ascii-%d" % L, "utf32", "k17_accessors_ascii::<%d>()" % L, {"C17": "quick"}, "bounded", ACC_FNS,
@@ -554,7 +550,7 @@ PROPERTIES = {
              "Complete proofs over the whole char domain.",
              note="Trusted: Kani/CBMC/cadical; Unicode oracle = Python unicodedata 14.0 cross-checked with regex-syntax 16.0 tables (generated/oracle_unicode.json); char_class_non_ascii replaced by 'returns any class' in the agreement obligation (sound over-approximation).",
              assumptions=["Unicode oracle = Python unicodedata 14.0 cross-checked with regex-syntax 16.0 tables"]),
-    "C17": P("other", "partial: representation decision (ASCII form <=> ASCII and no CR LF; bytes kept), equality of all constructors, and agreement of len/is_empty/get/first/last/chars/slice/slice_u32 (borrowed and owned type) with the content, on bounded strings. NOT decided: segmentation into extended grapheme clusters and projection to the first code point / CR LF -> LF (the unicode-segmentation dependency; constructor obligations run with that feature off), Display/Debug.",
+    "C17": P("other", "partial: representation decision (ASCII form <=> ASCII and no CR LF; bytes kept), equality of all six constructors on ASCII text, and agreement of len/is_empty/get/first/last/chars/slice/slice_u32 (borrowed and owned type) with the content, on bounded strings. NOT decided: anything about non-ASCII / CR LF text beyond the representation decision - segmentation into extended grapheme clusters, projection to the first code point, CR LF -> LF, equality of the constructors there (the unicode-segmentation dependency; even with that feature off the code-point constructors exceeded every time limit), Display/Debug.",
              "contract-based deductive verification (Kani contract harnesses, bounded strings; constructors in the crate's unicode-segmentation-off configuration)",
              "partial: representation decision, constructor agreement, accessors." + BOUNDED_NOTE,
              note="Trusted: Kani/CBMC; memmem shim; unicode-segmentation is NOT verified (feature switched off in the constructor obligations).", assumptions=["constructor obligations run with the unicode-segmentation feature off: graphemes() == str::chars()"]),
